@@ -1,4 +1,5 @@
 import Mdns.Lemmas.Responder
+import Mdns.Lemmas.ResponderSched
 /-
   C07  A name is probed three times before it is announced, then announced twice.
 
@@ -27,6 +28,21 @@ import Mdns.Lemmas.Responder
     answers - by evaluation of the model under the timely scheduler for EVERY jitter `j < 250`
     on a concrete registration, and for a spread of jitters on a dual-stack interface with a
     mixed-case instance name and a subtype (`probe_lifecycle_partial`).
+  * the same schedule INSIDE the daemon loop (`probe_schedule_in_daemon`, `probe_query_in_daemon`):
+    for any daemon state - other probes, services, interfaces, queued re-runs arbitrary - with a
+    fresh probe of `n` on interface `i`, idle iterations at `T`, `T+250`, `T+500`, `T+750` and any
+    others in between send the probe query for `n` on `i` at exactly `T`, `T+250`, `T+500`
+    (every family, `ANY n`, all records as authorities) and at no other iteration, and the
+    records are active after the iteration at `T+750`;
+  * from the registration on (`registration_starts_probe`, `registration_probe_lifecycle`): in any
+    running daemon state, `register(svc)` at `t0` under jitter `j ≥ 1` and a timely scheduler give,
+    for every unique record the daemon did not hold, probe queries for its name in exactly the
+    iterations at `t0+j`, `+250`, `+500` and the record active after `t0+j+750` (for `j = 0` the first
+    query leaves in the registration iteration itself);
+  * the two announcements as step contracts (`first_announcement`: a woken service whose unique
+    records are active is announced with PTR/subtype PTR/SRV/TXT/addresses, becomes `Announced`,
+    `RegisterResend` queued for +1000 ms with a timer; `second_announcement`: the re-run sends the
+    same record set again, by the invariant);
   The statement for every service, interface and start time is `probe_lifecycle_full`.
 
   Findings kept as theorems about the model (= the code, by the correspondence):
@@ -139,6 +155,142 @@ theorem probe_end_activates_records (intfName : BList) (acc : Registry × List E
     alookup name (expireProbe intfName acc name).1.probing = none ∧
     (p.records ≠ [] → ∀ w ∈ p.waiting, w ∈ (expireProbe intfName acc name).2.2) :=
   expireProbe_activates intfName acc name p hl hn
+
+/-! ### the schedule of a probe INSIDE the daemon loop -/
+
+/-- ONE idle loop iteration (`iter` without datagram and command) of a daemon in ANY state in
+    which it runs, interface `i` is there once, and the probe of `n` on `i` has start `st`, next
+    send `nx` and holds the records `R` - other probes, services, interfaces, queued re-runs and
+    timers arbitrary.  While the probe does not end (`now < nx` or `now < st + 750`): the probe
+    query for `n` leaves on `i` in this iteration exactly if `now ≥ nx` - on every family of the
+    interface, a query packet with `ANY n` among the questions and all of `R` among the
+    authorities - and then `nx` becomes `now + 250`; otherwise the probe is as before. -/
+theorem probe_query_in_daemon (s : State) (i : MyIntf) (l1 l2 : List MyIntf) (n : BList) (st nx : Nat) (R : List RR) (now j : Nat)
+    (h : Good s i l1 l2 n st nx R) (hlive : now < nx ∨ now < st + 750) :
+    Good (iter s (idle now j)).1 i l1 l2 n st (if now ≥ nx then now + 250 else nx) R ∧
+    (now < nx → asked i.index n (iter s (idle now j)).2 = false) ∧
+    (now ≥ nx → ∀ v4, i.hasFamily v4 = true → ∃ pkt, Out.send i.index v4 none pkt ∈ (iter s (idle now j)).2 ∧
+      pkt.flags = 0 ∧ (n, TYPE_ANY) ∈ pkt.questions ∧ ∀ a ∈ R, a ∈ pkt.authorities) :=
+  iter_idle_step s i l1 l2 n st nx R now j h hlive
+
+/-- PROBE LIFE CYCLE IN THE DAEMON, timely scheduler, no conflict, for ANY state as above in
+    which the probe of `n` on interface `i` is fresh (`start = next_send = T`): over idle loop
+    iterations at exactly `T`, `T+250`, `T+500`, `T+750` and at ANY other instants in between
+    (`pre0 … pre3`), the iterations in which a probe query for `n` leaves on `i` are exactly those
+    at `T`, `T+250` and `T+500` - none before, none in between, none at `T+750` - and after the
+    iteration at `T+750` every record of the probe (filed under `n`) is active on `i`. -/
+theorem probe_schedule_in_daemon (s : State) (i : MyIntf) (l1 l2 : List MyIntf) (n : BList) (T : Nat) (R : List RR) (j : Nat)
+    (h : Good s i l1 l2 n T T R) (hfam : ∃ v4, i.hasFamily v4 = true)
+    (pre0 pre1 pre2 pre3 : List Nat)
+    (h0 : ∀ t ∈ pre0, t < T) (h1 : ∀ t ∈ pre1, t < T + 250) (h2 : ∀ t ∈ pre2, t < T + 500) (h3 : ∀ t ∈ pre3, t < T + 750) :
+    askTimes i.index n
+      (idleRun j s ((pre0 ++ [T]) ++ ((pre1 ++ [T + 250]) ++ ((pre2 ++ [T + 500]) ++ (pre3 ++ [T + 750]))))).2 =
+      [T, T + 250, T + 500] ∧
+    ∀ a ∈ R, a.getName = n →
+      ((idleRun j s ((pre0 ++ [T]) ++ ((pre1 ++ [T + 250]) ++ ((pre2 ++ [T + 500]) ++ (pre3 ++ [T + 750]))))).1.registry
+        i.index).isActive a = true := by
+  obtain ⟨g1, a1⟩ := idleRun_phase j i l1 l2 n T T R s pre0 h (by omega) hfam h0
+  obtain ⟨g2, a2⟩ := idleRun_phase j i l1 l2 n T (T + 250) R _ pre1 g1 (by omega) hfam h1
+  obtain ⟨g3, a3⟩ := idleRun_phase j i l1 l2 n T (T + 250 + 250) R _ pre2 g2 (by omega) hfam (by simpa [Nat.add_assoc] using h2)
+  obtain ⟨a4, hact⟩ := idleRun_final j i l1 l2 n T (T + 250 + 250 + 250) R _ pre3 g3 (by omega) (by simpa [Nat.add_assoc] using h3)
+  have e500 : T + 500 = T + 250 + 250 := by omega
+  have e750 : T + 750 = T + 250 + 250 + 250 := by omega
+  rw [e500, e750]
+  rw [idleRun_append, idleRun_append, idleRun_append]
+  refine ⟨?_, hact⟩
+  simp only [askTimes_append]
+  rw [a1, a2, a3, a4]
+  rfl
+
+/-- REGISTRATION STARTS THE PROBE (any running daemon state, `register(svc)` processed at `now`
+    under jitter `j` in an iteration without datagram or other command): for a unique record `a`
+    of the service on interface `i` that this daemon does not hold yet - not active, its name `n`
+    not being probed - the probe of `n` on `i` exists afterwards with start `now + j`, holding `a`
+    or a matching record `b`; a probe query went out in this very iteration iff `j = 0`. -/
+theorem registration_starts_probe (s : State) (i : MyIntf) (l1 l2 : List MyIntf) (svc : Service) (now j : Nat)
+    (v4 : Bool) (a : RR) (n : BList)
+    (hrun : s.stopped = false) (hi : IntfsOk s i l1 l2) (hok : RerunsOk s)
+    (hpn : KeysNodup (s.registry i.index).probing) (hnr : NoRen (s.registry i.index))
+    (hlen : Names.checkServiceNameLength svc.ty s.nameLenMax = .ok ()) (hauto : svc.addrAuto = false)
+    (hprobe : svc.probe = true) (hne : addrsOn svc i v4 ≠ [])
+    (ha : a ∈ uniqueRecords svc i (s.registry i.index) v4) (hname : a.getName = n)
+    (hinactive : (s.registry i.index).isActive a = false) (hfresh : alookup n (s.registry i.index).probing = none) :
+    ∃ b, a.matchesRR b = true ∧ b.getName = n ∧
+      Good (iter s { now := now, jitter := j, cmds := [.register svc] }).1 i l1 l2 n (now + j)
+        (if j = 0 then now + 250 else now + j) [b] ∧
+      (j ≠ 0 → asked i.index n (iter s { now := now, jitter := j, cmds := [.register svc] }).2 = false) ∧
+      (j = 0 → ∀ v4', i.hasFamily v4' = true →
+        ∃ pkt, Out.send i.index v4' none pkt ∈ (iter s { now := now, jitter := j, cmds := [.register svc] }).2 ∧
+          pkt.flags = 0 ∧ (n, TYPE_ANY) ∈ pkt.questions ∧ b ∈ pkt.authorities) :=
+  registration_creates_probe s i l1 l2 svc now j v4 a n hrun hi hok hpn hnr hlen hauto hprobe hne ha hname hinactive hfresh
+
+/-- FROM REGISTRATION TO ACTIVE RECORD, jitter `j ≥ 1`, timely scheduler, no conflict: in any
+    running daemon state, `register(svc)` at `t0` under jitter `j`, then idle iterations at exactly
+    `T = t0+j`, `T+250`, `T+500`, `T+750` and at any other instants in between.  For a unique
+    record `a` of the service on interface `i` that the daemon did not hold: no probe query for its
+    name `n` in the registration iteration; afterwards probe queries for `n` leave on `i` in
+    exactly the iterations at `T`, `T+250`, `T+500`; and after the iteration at `T+750` the record
+    `a` is active on `i` - not before the probe is 750 ms old (`active_only_after_probe`). -/
+theorem registration_probe_lifecycle (s : State) (i : MyIntf) (l1 l2 : List MyIntf) (svc : Service) (t0 j : Nat)
+    (v4 : Bool) (a : RR) (n : BList)
+    (hrun : s.stopped = false) (hi : IntfsOk s i l1 l2) (hok : RerunsOk s)
+    (hpn : KeysNodup (s.registry i.index).probing) (hnr : NoRen (s.registry i.index))
+    (hlen : Names.checkServiceNameLength svc.ty s.nameLenMax = .ok ()) (hauto : svc.addrAuto = false)
+    (hprobe : svc.probe = true) (hne : addrsOn svc i v4 ≠ [])
+    (ha : a ∈ uniqueRecords svc i (s.registry i.index) v4) (hname : a.getName = n)
+    (hinactive : (s.registry i.index).isActive a = false) (hfresh : alookup n (s.registry i.index).probing = none)
+    (hj : j ≠ 0) (hfam : ∃ v4', i.hasFamily v4' = true)
+    (pre0 pre1 pre2 pre3 : List Nat)
+    (h0 : ∀ t ∈ pre0, t < t0 + j) (h1 : ∀ t ∈ pre1, t < t0 + j + 250) (h2 : ∀ t ∈ pre2, t < t0 + j + 500)
+    (h3 : ∀ t ∈ pre3, t < t0 + j + 750) :
+    asked i.index n (iter s { now := t0, jitter := j, cmds := [.register svc] }).2 = false ∧
+    askTimes i.index n
+      (idleRun j (iter s { now := t0, jitter := j, cmds := [.register svc] }).1
+        ((pre0 ++ [t0 + j]) ++ ((pre1 ++ [t0 + j + 250]) ++ ((pre2 ++ [t0 + j + 500]) ++ (pre3 ++ [t0 + j + 750]))))).2 =
+      [t0 + j, t0 + j + 250, t0 + j + 500] ∧
+    ((idleRun j (iter s { now := t0, jitter := j, cmds := [.register svc] }).1
+        ((pre0 ++ [t0 + j]) ++ ((pre1 ++ [t0 + j + 250]) ++ ((pre2 ++ [t0 + j + 500]) ++ (pre3 ++ [t0 + j + 750]))))).1.registry
+      i.index).isActive a = true := by
+  obtain ⟨b, hm, hbn, hg, hno, _⟩ := registration_creates_probe s i l1 l2 svc t0 j v4 a n hrun hi hok hpn hnr hlen hauto hprobe
+    hne ha hname hinactive hfresh
+  simp only [hj, ↓reduceIte] at hg
+  obtain ⟨hask, hact⟩ := probe_schedule_in_daemon _ i l1 l2 n (t0 + j) [b] j hg hfam pre0 pre1 pre2 pre3 h0 h1 h2 h3
+  refine ⟨hno hj, hask, ?_⟩
+  exact isActive_of_matches _ a b hm (hname.trans hbn.symm) (hact b (by simp) hbn)
+
+/-! ### the two announcements -/
+
+/-- FIRST ANNOUNCEMENT.  When `probing_handler` wakes a registered service that is not yet
+    `Announced` on interface `i` and whose unique records of family `v4` are all active there (it
+    has an in-subnet address of that family): the announcement - PTR (and subtype PTR), SRV, TXT,
+    the addresses, as answers of one response - leaves on `i` over that family; every monitor
+    gets an event; the status becomes `Announced`; `RegisterResend` is queued for one second
+    later and a timer is armed for it. -/
+theorem first_announcement (now j : Nat) (i : MyIntf) (acc : State × List Out) (name : BList) (svc : Service) (v4 : Bool)
+    (hsvc : alookup (lower name) acc.1.services = some svc) (hnot : svc.announcedOn i.index = false)
+    (hne : addrsOn svc i v4 ≠ [])
+    (hact : ∀ a ∈ uniqueRecords svc i (acc.1.registry i.index) v4, (acc.1.registry i.index).isActive a = true) :
+    Out.send i.index v4 none (announcePkt svc ((acc.1.registry i.index).resolveName svc.fullname)
+        (uniqueRecords svc i (acc.1.registry i.index) v4)) ∈ (wakeService now j i acc name).2 ∧
+    (∃ svc', alookup (lower name) (wakeService now j i acc name).1.services = some svc' ∧ svc'.announcedOn i.index = true) ∧
+    ReRun.registerResend (now + 1000) svc.fullname i.index ∈ (wakeService now j i acc name).1.reruns ∧
+    (now + 1000) ∈ (wakeService now j i acc name).1.timers ∧
+    (∀ ch ∈ acc.1.monitors, ∃ e, Out.event ch e ∈ (wakeService now j i acc name).2) :=
+  wakeService_announces now j i acc name svc v4 hsvc hnot hne hact
+
+/-- SECOND ANNOUNCEMENT.  When the queued `RegisterResend` of a registered service that requires
+    probing runs and the service is `Announced` on the interface - so that by the invariant
+    (`announced_records_active`) its unique records of some family are active there - the
+    announcement with the same record set leaves again on that interface over that family
+    (whatever the letter case of the name, since the repair of D8). -/
+theorem second_announcement (s : State) (now j : Nat) (fullname : BList) (i : MyIntf) (svc : Service) (r0 : Registry)
+    (hsvc : alookup (lower fullname) s.services = some svc) (hreg : alookup i.index s.registries = some r0)
+    (hfind : s.intfs.find? (·.index == i.index) = some i) (huniq : ∀ i' ∈ s.intfs, i'.index = i.index → i' = i)
+    (hprobe : svc.probe = true) (hann : svc.announcedOn i.index = true) (hsound : SvcSound s svc) :
+    ∃ v4, addrsOn svc i v4 ≠ [] ∧
+      Out.send i.index v4 none (announcePkt svc (r0.resolveName svc.fullname) (uniqueRecords svc i r0 v4)) ∈
+        (execRegisterResend s now j fullname i.index).2 :=
+  registerResend_announces s now j fullname i svc r0 hsvc hreg hfind huniq hprobe hann hsound
 
 /-! ### findings (the model mirrors the code; both agree on the witnesses in corpus/C07) -/
 
@@ -279,5 +431,58 @@ example :
 example :
     (sendsAt [(1000800, (iter (iter (init 1000000 [eth0]) { now := 1000000, jitter := 10, cmds := [.register web] }).1
         { now := 1000800, jitter := 10 }).2)]).map (fun x => x.1) = [1000800] := by decide +kernel
+
+/-! non-vacuity of `probe_schedule_in_daemon`: the state right after `register(web)` on a fresh
+    daemon (jitter 7) satisfies `Good` for the probe of the instance name, fresh at 1000007 -/
+
+def probingState : State := (iter (init 1000000 [eth0]) { now := 1000000, jitter := 7, cmds := [.register web] }).1
+
+def webTxt : RR := { name := web.fullname, ty := 16, flush := true, ttl := 4500, rdata := .txt [0] }
+def webSrv : RR := { name := web.fullname, ty := 33, flush := true, ttl := 120, rdata := .srv 0 0 80 web.host }
+def webA : RR := { name := web.host, ty := 1, flush := true, ttl := 120, rdata := .a [192, 168, 1, 20] }
+
+def probingRegistry : Registry :=
+  { probing := [(web.fullname, { records := [webTxt, webSrv], waiting := [web.fullname], start := 1000007, next := 1000007 }),
+                (web.host, { records := [webA], waiting := [web.fullname], start := 1000007, next := 1000007 })] }
+
+theorem probingState_registry : probingState.registry 2 = probingRegistry := by decide +kernel
+
+example : Good probingState eth0 [] [] web.fullname 1000007 1000007 [webTxt, webSrv] := by
+  refine ⟨by decide +kernel, ⟨by decide +kernel, by simp⟩, ⟨?_, ?_, ?_⟩, ?_⟩
+  · exact ⟨{ records := [webTxt, webSrv], waiting := [web.fullname], start := 1000007, next := 1000007 },
+      by rw [show eth0.index = 2 from rfl, probingState_registry]; decide, rfl, rfl, fun a h => h⟩
+  · rw [show eth0.index = 2 from rfl, probingState_registry]
+    unfold KeysNodup
+    decide
+  · rw [show eth0.index = 2 from rfl, probingState_registry]
+    refine ⟨rfl, ?_⟩
+    intro n p hm a ha
+    simp only [probingRegistry, List.mem_cons, Prod.mk.injEq, List.not_mem_nil, or_false] at hm
+    rcases hm with ⟨_, rfl⟩ | ⟨_, rfl⟩
+    · simp only [List.mem_cons, List.not_mem_nil, or_false] at ha
+      rcases ha with rfl | rfl <;> rfl
+    · simp only [List.mem_cons, List.not_mem_nil, or_false] at ha
+      subst ha; rfl
+  · intro t p k v hm
+    have : probingState.reruns = [] := by decide +kernel
+    rw [this] at hm
+    cases hm
+
+/-! non-vacuity of `registration_probe_lifecycle`: its hypotheses hold for `register(web)` on the
+    fresh daemon with the SRV record of `web` (jitter 7, no extra iterations) -/
+
+theorem init_registry : (init 1000000 [eth0]).registry eth0.index = {} := by decide +kernel
+
+example :
+    askTimes 2 web.fullname
+      (idleRun 7 (iter (init 1000000 [eth0]) { now := 1000000, jitter := 7, cmds := [.register web] }).1
+        (([] ++ [1000000 + 7]) ++ (([] ++ [1000000 + 7 + 250]) ++ (([] ++ [1000000 + 7 + 500]) ++ ([] ++ [1000000 + 7 + 750]))))).2 =
+      [1000000 + 7, 1000000 + 7 + 250, 1000000 + 7 + 500] :=
+  (registration_probe_lifecycle (init 1000000 [eth0]) eth0 [] [] web 1000000 7 true webSrv web.fullname
+    (by decide) ⟨by decide, by simp⟩ (fun _ _ _ _ h => by simp [init] at h)
+    (by rw [init_registry]; unfold KeysNodup; decide) (by rw [init_registry]; exact NoRen.empty)
+    (by decide) rfl rfl (by decide) (by rw [init_registry]; decide) rfl (by rw [init_registry]; decide)
+    (by rw [init_registry]; decide) (by decide) ⟨true, by decide⟩ [] [] [] []
+    (by simp) (by simp) (by simp) (by simp)).2.1
 
 end Mdns.Props.C07
